@@ -5,6 +5,8 @@ stay silent). Each patch is applied to a scratch copy under /tmp which is remove
 afterwards; at most N copies live at a time.
 usage: run_mutants.py [-j N] [--only substr] [--props C01,C02] [--all-props]"""
 import json, os, subprocess, sys, tempfile, shutil, concurrent.futures as cf
+sys.path.insert(0, os.path.dirname(os.path.abspath(__file__)))
+import evrun
 ROOT = os.path.dirname(os.path.dirname(os.path.abspath(__file__)))
 ENV = dict(os.environ, GOFLAGS="-mod=mod", GOPROXY="off", GOSUMDB="off", GOTOOLCHAIN="local", GOWORK="off")
 args = sys.argv[1:]
@@ -36,8 +38,10 @@ def run_one(kind, entry):
             props = props_override or entry.get("breaks") or ALL
         else:
             props = props_override or ALL
+        results = evrun.run_props(repo, props, out, work=os.path.join(tmp, "work"))
         for pid in props:
-            pr = subprocess.run([os.environ.get("EVCHECK_BIN", os.path.join(ROOT, "bin", "evcheck")), "-repo", repo, "-verif", ROOT, "-out", out, pid], env=ENV, capture_output=True, text=True)
+            rc, text = results[pid]
+            pr = type("R", (), {"returncode": rc, "stdout": text})
             hit = [l for l in pr.stdout.splitlines() if l.startswith("VIOLATION") or l.startswith("UNDECIDED")]
             detail = [l.strip() for l in pr.stdout.splitlines() if l.startswith("  C") or l.startswith("UNDECIDED")]
             if pr.returncode != 0 and hit:
